@@ -152,6 +152,7 @@ let parse_file (path : string) : Trace.tev list * stats =
         | ["QVARIANTS"; b] -> push (Trace.TQVariants (rid_of b, []))
         | ["CONNEV"; c; "token"; tok; _] -> push (Trace.TConnToken (conn_of c, tok_of tok))
         | ["TOKTASK"; c; tok; tid] -> push (Trace.TTokenTask (conn_of c, tok_of tok, tid_of tid))
+        | ["SITE"; "reaccess.deferred"; c; r] when S.length c > 1 && S.get c 0 = 'c' -> st.sites <- "reaccess.deferred" :: st.sites; push (Trace.TReaccessDeferred (conn_of c, rid_of r))
         | ["THROTTLE"; n] -> push (Trace.TThrottle (nat_of_int (int_of_string n)))
         | ["SYSEV"; "tokenreset"; tids] -> push (Trace.TTokenResetEv (L.map tid_of (L.filter (fun x -> x <> "") (S.split_on_char ',' tids))))
         | ["SYSEV"; "reset"; which; pats] ->
@@ -291,8 +292,11 @@ let run_traces (files : string list) : unit =
       let (p, k) = akind_name v.AccessMon.av_kind in
       let pos = int_of_nat v.AccessMon.av_pos in
       let ln = if pos >= 1 && pos <= Array.length !line_tbl then !line_tbl.(pos - 1) else 0 in
-      Printf.printf "VIOL\t%s\t%s\t%s\t%s\t%s\t%d\n" path p k (conn_name (int_of_nat v.AccessMon.av_c))
-        (rid_name (int_of_nat v.AccessMon.av_r)) ln) avs;
+      (* token currency is part of C04 ("carrying the connection's then-current token"), C05 and C06 ("with the current token") *)
+      let props = if v.AccessMon.av_kind = AccessMon.AStaleToken then ["C05"; "C04"; "C06"] else [p] in
+      L.iter (fun p ->
+        Printf.printf "VIOL\t%s\t%s\t%s\t%s\t%s\t%d\n" path p k (conn_name (int_of_nat v.AccessMon.av_c))
+          (rid_name (int_of_nat v.AccessMon.av_r)) ln) props) avs;
     let vs = Monitors.monitor tr in
     L.iter (fun (v : Monitors.viol) ->
       let (p, k) = vkind_name v.Monitors.v_kind in
